@@ -257,7 +257,7 @@ def hyp_explore(part, known, strategy, case_fn, n, seed, max_roots=MAX_ROOTS, sh
         except _Found:
             case, (key, detail) = state["last"]
             if key not in part.violations:
-                part.violations[key] = jsonable({"case": case, "detail": detail, "gen": label})
+                part.violations[key] = jsonable({"detail": detail, "case": case, "gen": label})
             ignored.add(key)
             remaining -= state["count"]
         except hypothesis.errors.Unsatisfiable as e:  # generator problem
